@@ -93,7 +93,7 @@ CLAIMED = {
     'C19': {       'design_ref': 'DESIGN.md section 3, C19',
         'note': 'CPython is the judge of sameness. Off-spine operands are fixed leaves. Class bodies, match and async are outside the '
                 'grammar. Known findings by signature.',
-        'spec': 'PyExpr.tla, PyScope.tla, Remargin.tla',
+        'spec': 'PyExpr.tla, PyScope.tla, Remargin.tla, PySig.tla',
         'technique': 'TLA+ model checking (TLC) + spec-to-code replay with CPython as judge',
         'text': 'TLC enumerates every parent/position/child chain of 95 expression forms to 2 wraps (deeper by simulation) with a fully '
                 'parenthesised reference and a precedence-table spelling. It computes free/bound name sets of ~2.5k statement blocks '
